@@ -1,4 +1,5 @@
 import SpecVerif.Proofs.Lemmas.Minvar
+import SpecVerif.Proofs.Lemmas.GohbergSemencul
 import SpecVerif.Proofs.Lemmas.Arma
 import SpecVerif.Proofs.C08
 import SpecVerif.Proofs.C13
@@ -21,14 +22,20 @@ import Mathlib.Tactic.Positivity
   `NFFT`-th root of unity with `star ω = ω⁻¹` (numpy's `e^{-2πi/NFFT}`), `e(f_k)_i = e^{2πi f_k i} = ω^{-ik}`.
   `gsG m a i j = Σ_{t ≤ min i j} (a_{i-t}·conj a_{j-t} − b_{i-t}·conj b_{j-t})`, `b = [0, conj a_{m-1}, …,
   conj a_1]`, is entry `(i,j)` of `L₁L₁ᴴ − L₂L₂ᴴ` (`gs_matrix_is_product_difference`), `R_{ij} = r(i-j)`.
-  The Gohberg–Semencul identity `R⁻¹ = (L₁L₁ᴴ − L₂L₂ᴴ)/P` itself is NOT proved here: it enters as the
-  explicit hypothesis `hGS` (it is checked in exact arithmetic by the test harness, and on a concrete
-  `3 × 3` instance in an `example` below); everything around it is proved.
+  The Gohberg–Semencul identity `R⁻¹ = (L₁L₁ᴴ − L₂L₂ᴴ)/P` is PROVED (section 7, `gohberg_semencul`,
+  `gohberg_semencul_unique`; helpers in `Proofs/Lemmas/GohbergSemencul.lean`, namespace `SpecVerif.GSL`):
+  whenever `(a, P)` solve the normal equations `Σ_j R_{ij} a_j = P δ_{i0}` of the Hermitian Toeplitz `R`,
+  `R·G = P·I = G·R`, so every right (or left) inverse of `R` is `G/P`.  Sections 2–5 keep the older theorems
+  that take the identity as the explicit hypothesis `hGS` (names `…_of_GS`, `…_of_pd`); sections 7–8 state the
+  property without it: `minvar_eq_quadratic_form`, `minvar_psd_eq_quadratic_form` (the value `minvar` returns,
+  `R` built from the autocorrelation implied by the Burg model: `r_0 = mean |x|²`, `r_j = rc2ac(ref, r_0)[j]`;
+  that the Burg model solves these normal equations is `minvar_ar_solves_normal_equations`), and over `ℝ`/`ℂ`
+  `minvar_psd_real_pos` (positive definiteness of `R` is derived from `|k_i| < 1`, not assumed).
 
   Property theorems only (helpers: `Proofs/Lemmas/Minvar.lean`, namespace `SpecVerif.MinvarL`).
 -/
 namespace SpecVerif.C16
-open Finset SpecVerif SpecVerif.ArmaL SpecVerif.MinvarL SpecVerif.BurgL
+open Finset SpecVerif SpecVerif.ArmaL SpecVerif.MinvarL SpecVerif.BurgL SpecVerif.GSL
 
 variable {K : Type} [Field K] [StarRing K]
 
@@ -292,5 +299,357 @@ example : nth (minvarPsi ([1, 0, Complex.I] : List ℂ) 1 4) (4 - 2)
   have := congrArg Complex.im hI
   simp at this
   norm_num at this
+
+/-! ### 7. the Gohberg–Semencul identity, proved; the property without `hGS` -/
+
+/-- **Gohberg–Semencul**: let `m ≥ 1`, `r_0` real, `R` the `m × m` Hermitian Toeplitz matrix of the lags
+`r` (`R_{ij} = r(i-j)` for `j ≤ i`, `conj r(j-i)` above the diagonal — the matrix of `C10.levinson_solves`),
+and let `a = [1, a_1, …, a_{m-1}]`, `P ≠ 0` real solve the normal equations `Σ_j R_{ij} a_j = P δ_{i0}`.
+Then `(L₁L₁ᴴ − L₂L₂ᴴ)/P` is a two-sided inverse of `R`: `R·(G/P) = I` and `(G/P)·R = I`. -/
+theorem gohberg_semencul (m : ℕ) (hm : 1 ≤ m) (r a : ℕ → K) {P : K} (h0 : star (r 0) = r 0)
+    (hP : star P = P) (hP0 : P ≠ 0) (ha0 : a 0 = 1)
+    (hN : ∀ i, i < m → ∑ j ∈ range m, (if j ≤ i then r (i - j) else star (r (j - i))) * a j
+      = if i = 0 then P else 0) :
+    (∀ i j, i < m → j < m →
+      ∑ l ∈ range m, (if l ≤ i then r (i - l) else star (r (l - i))) * (gsG m a l j / P)
+        = if i = j then 1 else 0) ∧
+    (∀ i j, i < m → j < m →
+      ∑ l ∈ range m, (gsG m a i l / P) * (if j ≤ l then r (l - j) else star (r (j - l)))
+        = if i = j then 1 else 0) := by
+  constructor
+  · intro i j hi hj
+    have h := gs_right m hm r a P h0 hP ha0 hN i j hi hj
+    have e : ∑ l ∈ range m, (if l ≤ i then r (i - l) else star (r (l - i))) * (gsG m a l j / P)
+        = (∑ l ∈ range m, hR r i l * gsG m a l j) / P := by
+      rw [Finset.sum_div]
+      apply Finset.sum_congr rfl
+      intro l _
+      unfold hR
+      rw [mul_div_assoc]
+    rw [e, h]
+    by_cases hij : i = j
+    · rw [if_pos hij, if_pos hij, div_self hP0]
+    · rw [if_neg hij, if_neg hij, zero_div]
+  · intro i j hi hj
+    have h := gs_left m hm r a P h0 hP ha0 hN i j hi hj
+    have e : ∑ l ∈ range m, (gsG m a i l / P) * (if j ≤ l then r (l - j) else star (r (j - l)))
+        = (∑ l ∈ range m, gsG m a i l * hR r l j) / P := by
+      rw [Finset.sum_div]
+      apply Finset.sum_congr rfl
+      intro l _
+      unfold hR
+      rw [div_mul_eq_mul_div]
+    rw [e, h]
+    by_cases hij : i = j
+    · rw [if_pos hij, if_pos hij, div_self hP0]
+    · rw [if_neg hij, if_neg hij, zero_div]
+
+/-- **the inverse is unique**: under the hypotheses of `gohberg_semencul`, any right inverse `X`
+(`R·X = I` entrywise on the indices `< m`) and any left inverse (`X·R = I`) equals `(L₁L₁ᴴ − L₂L₂ᴴ)/P`. -/
+theorem gohberg_semencul_unique (m : ℕ) (hm : 1 ≤ m) (r a : ℕ → K) {P : K} (h0 : star (r 0) = r 0)
+    (hP : star P = P) (hP0 : P ≠ 0) (ha0 : a 0 = 1)
+    (hN : ∀ i, i < m → ∑ j ∈ range m, (if j ≤ i then r (i - j) else star (r (j - i))) * a j
+      = if i = 0 then P else 0) (X : ℕ → ℕ → K) :
+    ((∀ i j, i < m → j < m →
+        ∑ l ∈ range m, (if l ≤ i then r (i - l) else star (r (l - i))) * X l j
+          = if i = j then 1 else 0) →
+      ∀ i j, i < m → j < m → X i j = gsG m a i j / P) ∧
+    ((∀ i j, i < m → j < m →
+        ∑ l ∈ range m, X i l * (if j ≤ l then r (l - j) else star (r (j - l)))
+          = if i = j then 1 else 0) →
+      ∀ i j, i < m → j < m → X i j = gsG m a i j / P) :=
+  ⟨fun hX => gs_right_inverse_unique m hm r a P h0 hP hP0 ha0 hN X hX,
+    fun hX => gs_left_inverse_unique m hm r a P h0 hP hP0 ha0 hN X hX⟩
+
+/-- non-vacuity of `gohberg_semencul` (all hypotheses hold): `K = ℚ`, `m = 3`, lags `r = (1, 1/2, 0)`,
+`a = [1, -2/3, 1/3]`, `P = 2/3`. -/
+example : star ((fun d => nth ([1, 1/2, 0] : List ℚ) d) 0) = (fun d => nth ([1, 1/2, 0] : List ℚ) d) 0 ∧
+    star (2/3 : ℚ) = 2/3 ∧ (2/3 : ℚ) ≠ 0 ∧ nth ([1, -2/3, 1/3] : List ℚ) 0 = 1 ∧
+    ∀ i, i < 3 → ∑ j ∈ range 3,
+        (if j ≤ i then nth ([1, 1/2, 0] : List ℚ) (i - j) else star (nth ([1, 1/2, 0] : List ℚ) (j - i)))
+          * nth ([1, -2/3, 1/3] : List ℚ) j
+      = if i = 0 then 2/3 else 0 := by
+  refine ⟨rfl, rfl, by norm_num, rfl, ?_⟩
+  intro i hi
+  interval_cases i <;> simp [nth, Finset.sum_range_succ] <;> norm_num
+
+/-- **minimum variance = quadratic form in `R⁻¹`** (no Gohberg–Semencul hypothesis).  Let `a = [1, a_1, …,
+a_{m-1}]` (`m ≥ 1` entries), `P ≠ 0` real, `2m ≤ NFFT+1`, `ω^NFFT = 1`, `conj ω = ω⁻¹`, `2 ≠ 0`; let `R` be the
+`m × m` Hermitian Toeplitz matrix of lags `r` (`r_0` real) whose normal equations `Σ_j R_{ij} a_j = P δ_{i0}`
+are solved by `(a, P)`, and let `Rinv` be ANY right inverse of `R` (`R·Rinv = I` on the indices `< m`).
+Then bin `k` of `minvarPsd` is `fs / (e(f_k)ᴴ Rinv e(f_k))`, `e(f_k)_i = ω^{-ik}`. -/
+theorem minvar_eq_quadratic_form {ω : K} {nfft : ℕ} (h2 : (2 : K) ≠ 0) (hω : ω ^ nfft = 1)
+    (hstar : star ω = ω⁻¹) (a : List K) {P : K} (hP : star P = P) (hP0 : P ≠ 0) (ha : 0 < a.length)
+    (ha0 : nth a 0 = 1) (hno : 2 * a.length ≤ nfft + 1) (r : ℕ → K) (h0 : star (r 0) = r 0)
+    (hN : ∀ i, i < a.length →
+      ∑ j ∈ range a.length, (if j ≤ i then r (i - j) else star (r (j - i))) * nth a j
+        = if i = 0 then P else 0)
+    (Rinv : ℕ → ℕ → K)
+    (hRinv : ∀ i j, i < a.length → j < a.length →
+      ∑ l ∈ range a.length, (if l ≤ i then r (i - l) else star (r (l - i))) * Rinv l j
+        = if i = j then 1 else 0)
+    (fs : K) (k : ℕ) (hk : k < nfft) :
+    nth (minvarPsd (twiddles ω nfft) a P fs nfft) k
+      = fs / ∑ i ∈ range a.length, ∑ j ∈ range a.length,
+          star (ω⁻¹ ^ (i * k)) * Rinv i j * ω⁻¹ ^ (j * k) :=
+  minvar_eq_quadratic_form_of_GS h2 hω hstar a hP hP0 ha hno Rinv
+    (gs_right_inverse_unique a.length ha r (nth a) P h0 hP hP0 ha0 hN Rinv hRinv) fs k hk
+
+/-- non-vacuity of `minvar_eq_quadratic_form`: `K = ℚ`, `ω = -1`, `NFFT = 4`, `m = 2`, `r = (1, 1/2)`,
+`a = [1, -1/2]`, `P = 3/4`, `Rinv = [[4/3, -2/3], [-2/3, 4/3]]`; at `k = 1` the PSD value is `fs/4`. -/
+example : nth (minvarPsd (twiddles (-1 : ℚ) 4) [1, -1/2] (3/4) 1 4) 1 = 1/4 := by
+  rw [minvar_eq_quadratic_form (ω := -1) (by norm_num) (by norm_num) (by simp)
+    [1, -1/2] (P := 3/4) (by simp) (by norm_num) (by simp) rfl (by simp)
+    (fun d => nth ([1, 1/2] : List ℚ) d) rfl ?_
+    (fun i j => if i = j then 4/3 else -2/3) ?_ 1 1 (by norm_num)]
+  · simp [Finset.sum_range_succ]; norm_num
+  · intro i hi
+    simp only [List.length_cons, List.length_nil] at hi
+    interval_cases i <;> simp [nth, Finset.sum_range_succ] <;> norm_num
+  · intro i j hi hj
+    simp only [List.length_cons, List.length_nil] at hi hj
+    interval_cases i <;> interval_cases j <;> simp [nth, Finset.sum_range_succ] <;> norm_num
+
+/-- **the Burg model solves the normal equations of the autocorrelation it implies**: for `m ≥ 1` and a
+non-zero Burg error power `ρ`, let `ρ_0 = (burgRun x 0).rho` (the mean squared modulus of the data,
+`C13.burg_rho_product`) and `r_0 = ρ_0`, `r_j = rc2ac(ref, ρ_0)[j]` for `1 ≤ j < m` (`ref` the returned
+reflection coefficients).  Then `ρ_0 ≠ 0`, every reflection coefficient is off the unit circle, and the
+returned AR vector `[1, a_1, …, a_{m-1}]` satisfies `Σ_{j<m} R_{ij} ar_j = ρ δ_{i0}` for `i < m`. -/
+theorem minvar_ar_solves_normal_equations (tw x : List K) (m : ℕ) (hm : 1 ≤ m) (fs : K) (nfft : ℕ)
+    (hP0 : (burgRun x (m - 1)).rho ≠ 0) (r : ℕ → K) (hr0 : r 0 = (burgRun x 0).rho)
+    (hr : ∀ j, 0 < j → j < m →
+      r j = nth (rc2ac (minvar tw x m fs nfft).ref (burgRun x 0).rho) j) :
+    (burgRun x 0).rho ≠ 0 ∧
+    (∀ κ ∈ (minvar tw x m fs nfft).ref, 1 - κ * star κ ≠ 0) ∧
+    ∀ i, i < m →
+      ∑ j ∈ range m, (if j ≤ i then r (i - j) else star (r (j - i)))
+          * nth (minvar tw x m fs nfft).ar j
+        = if i = 0 then (burgRun x (m - 1)).rho else 0 := by
+  obtain ⟨p, rfl⟩ : ∃ p, m = p + 1 := ⟨m - 1, by omega⟩
+  obtain ⟨h1, h2⟩ := burg_domain_of_rho_ne_zero x p hP0
+  refine ⟨h1, h2, ?_⟩
+  intro i hi
+  exact burg_normal_equations x p hP0 r hr0 (fun j hj hjp => hr j hj (by omega)) i hi
+
+/-- **C16, the PSD formula for the value `minvar` returns** (no Gohberg–Semencul hypothesis): for `m ≥ 1`,
+`NFFT ≥ 2m` and non-zero Burg error power, let `R` be the `m × m` Hermitian Toeplitz matrix of the
+autocorrelation implied by the order `m-1` Burg model — `r_0 = ρ_0 = (burgRun x 0).rho = mean |x|²`,
+`r_j = rc2ac(ref, ρ_0)[j]` for `1 ≤ j < m` — and `Rinv` ANY right inverse of `R`.  Then
+`minvar(X, m, fs, NFFT).psd[k] = fs / (e(f_k)ᴴ Rinv e(f_k))`, `e(f_k)_i = ω^{-ik}`. -/
+theorem minvar_psd_eq_quadratic_form {ω : K} {nfft : ℕ} (h2 : (2 : K) ≠ 0) (hω : ω ^ nfft = 1)
+    (hstar : star ω = ω⁻¹) (x : List K) (m : ℕ) (hm : 1 ≤ m) (hno : 2 * m ≤ nfft)
+    (hP0 : (burgRun x (m - 1)).rho ≠ 0) (fs : K)
+    (r : ℕ → K) (hr0 : r 0 = (burgRun x 0).rho)
+    (hr : ∀ j, 0 < j → j < m →
+      r j = nth (rc2ac (minvar (twiddles ω nfft) x m fs nfft).ref (burgRun x 0).rho) j)
+    (Rinv : ℕ → ℕ → K)
+    (hRinv : ∀ i j, i < m → j < m →
+      ∑ l ∈ range m, (if l ≤ i then r (i - l) else star (r (l - i))) * Rinv l j
+        = if i = j then 1 else 0)
+    (k : ℕ) (hk : k < nfft) :
+    nth (minvar (twiddles ω nfft) x m fs nfft).psd k
+      = fs / ∑ i ∈ range m, ∑ j ∈ range m, star (ω⁻¹ ^ (i * k)) * Rinv i j * ω⁻¹ ^ (j * k) := by
+  have hlen := one_cons_length_burg x m hm
+  have hN := (minvar_ar_solves_normal_equations (twiddles ω nfft) x m hm fs nfft hP0 r hr0 hr).2.2
+  have h0 : star (r 0) = r 0 := by rw [hr0]; exact burgRun_rho_star x 0
+  show nth (minvarPsd (twiddles ω nfft) (1 :: (burgRun x (m - 1)).a) (burgRun x (m - 1)).rho fs nfft) k
+    = _
+  have h := minvar_eq_quadratic_form h2 hω hstar (1 :: (burgRun x (m - 1)).a)
+    (burgRun_rho_star x (m - 1)) hP0 (by rw [hlen]; exact hm) rfl (by rw [hlen]; omega) r h0
+    (by rw [hlen]; exact hN) Rinv (by rw [hlen]; exact hRinv) fs k hk
+  rw [hlen] at h
+  exact h
+
+/-- non-vacuity of `minvar_psd_eq_quadratic_form` / `minvar_ar_solves_normal_equations`: `K = ℚ`,
+`x = [1, 2, 1]`, `m = 2`: `ρ_0 = 2`, `ref = [-4/5]`, `ρ = 18/25 ≠ 0`, implied lags `rc2ac = [2, 8/5]`,
+`R = [[2, 8/5], [8/5, 2]]` with inverse `[[25/18, -10/9], [-10/9, 25/18]]`. -/
+example : (burgRun ([1, 2, 1] : List ℚ) (2 - 1)).rho = 18/25 ∧
+    (burgRun ([1, 2, 1] : List ℚ) 0).rho = 2 ∧
+    rc2ac (minvar (twiddles (-1 : ℚ) 4) [1, 2, 1] 2 1 4).ref (burgRun ([1, 2, 1] : List ℚ) 0).rho
+      = [2, 8/5] ∧
+    (2 : ℚ) * (25/18) + (8/5) * (-10/9) = 1 ∧ (2 : ℚ) * (-10/9) + (8/5) * (25/18) = 0 := by
+  decide +kernel
+
+/-! ### 8. real and strictly positive, from positive definiteness of `R` -/
+section RC2
+variable {𝕜 : Type} [RCLike 𝕜]
+
+/-- **the inverse of a positive definite `R` is positive definite**: over `ℝ`/`ℂ`, `r_0` real, if
+`vᴴ R v` has positive real part for every `v ≠ 0` (`R` the `m × m` Hermitian Toeplitz matrix of `r`) and
+`R·X = I` on the indices `< m`, then `eᴴ X e` is a positive real number for every `e ≠ 0`. -/
+theorem toeplitz_inverse_pd (m : ℕ) (r : ℕ → 𝕜) (h0 : star (r 0) = r 0) (X : ℕ → ℕ → 𝕜)
+    (hRX : ∀ i j, i < m → j < m →
+      ∑ l ∈ range m, (if l ≤ i then r (i - l) else star (r (l - i))) * X l j
+        = if i = j then 1 else 0)
+    (hpd : ∀ v : ℕ → 𝕜, (∃ i, i < m ∧ v i ≠ 0) →
+      0 < RCLike.re (∑ i ∈ range m, ∑ j ∈ range m,
+        star (v i) * (if j ≤ i then r (i - j) else star (r (j - i))) * v j))
+    (e : ℕ → 𝕜) (he : ∃ i, i < m ∧ e i ≠ 0) :
+    ∃ q : ℝ, 0 < q ∧ ∑ i ∈ range m, ∑ j ∈ range m, star (e i) * X i j * e j = (q : 𝕜) :=
+  quadForm_inverse_pos m r h0 X hRX hpd e he
+
+/-- **real, strictly positive** (no Gohberg–Semencul hypothesis, positive definiteness of `R`, not of its
+inverse): over `ℝ`/`ℂ`, under the hypotheses of `minvar_eq_quadratic_form` on `(a, P, r)`, if the `m × m`
+Hermitian Toeplitz matrix of `r` is positive definite and `fs > 0`, every bin of the minimum-variance PSD
+is a strictly positive real number. -/
+theorem minvar_real_pos {ω : 𝕜} {nfft : ℕ} (hω : ω ^ nfft = 1) (hstar : star ω = ω⁻¹)
+    (a : List 𝕜) {P : 𝕜} (hP : star P = P) (hP0 : P ≠ 0) (ha : 0 < a.length) (ha0 : nth a 0 = 1)
+    (hno : 2 * a.length ≤ nfft + 1) (r : ℕ → 𝕜) (h0 : star (r 0) = r 0)
+    (hN : ∀ i, i < a.length →
+      ∑ j ∈ range a.length, (if j ≤ i then r (i - j) else star (r (j - i))) * nth a j
+        = if i = 0 then P else 0)
+    (hpd : ∀ v : ℕ → 𝕜, (∃ i, i < a.length ∧ v i ≠ 0) →
+      0 < RCLike.re (∑ i ∈ range a.length, ∑ j ∈ range a.length,
+        star (v i) * (if j ≤ i then r (i - j) else star (r (j - i))) * v j))
+    (fs : ℝ) (hfs : 0 < fs) (k : ℕ) (hk : k < nfft) :
+    ∃ v : ℝ, 0 < v ∧ nth (minvarPsd (twiddles ω nfft) a P (fs : 𝕜) nfft) k = (v : 𝕜) :=
+  minvar_real_pos_of_pd hω hstar a hP hP0 ha hno (fun i j => gsG a.length (nth a) i j / P)
+    (fun _ _ _ _ => rfl)
+    (fun e he => quadForm_inverse_pos a.length r h0 _
+      (gohberg_semencul a.length ha r (nth a) h0 hP hP0 ha0 hN).1 hpd e he)
+    fs hfs k hk
+
+/-- non-vacuity of `minvar_real_pos` (all hypotheses, including positive definiteness of `R`): `𝕜 = ℝ`,
+`ω = -1`, `NFFT = 4`, `r = (1, 1/2)`, `a = [1, -1/2]`, `P = 3/4`,
+`vᴴ R v = v_0² + v_0 v_1 + v_1² = (v_0 + v_1/2)² + (3/4) v_1²`. -/
+example : ∃ v : ℝ, 0 < v ∧
+    nth (minvarPsd (twiddles (-1 : ℝ) 4) [1, -1/2] (3/4) ((1 : ℝ) : ℝ) 4) 1 = (v : ℝ) := by
+  refine minvar_real_pos (𝕜 := ℝ) (ω := -1) (by norm_num) (by simp)
+    [1, -1/2] (P := 3/4) (by simp) (by norm_num) (by simp) rfl (by simp)
+    (fun d => nth ([1, 1/2] : List ℝ) d) rfl ?_ ?_ 1 one_pos 1 (by norm_num)
+  · intro i hi
+    simp only [List.length_cons, List.length_nil] at hi
+    interval_cases i <;> simp [nth, Finset.sum_range_succ] <;> norm_num
+  · intro v hv
+    have e : ∑ i ∈ range ([1, -1/2] : List ℝ).length, ∑ j ∈ range ([1, -1/2] : List ℝ).length,
+        star (v i) * (if j ≤ i then nth ([1, 1/2] : List ℝ) (i - j)
+          else star (nth ([1, 1/2] : List ℝ) (j - i))) * v j
+        = (v 0 + v 1 / 2) ^ 2 + 3/4 * (v 1) ^ 2 := by
+      simp [nth, Finset.sum_range_succ]
+      ring
+    rw [e]
+    obtain ⟨i, hi, hne⟩ := hv
+    simp only [List.length_cons, List.length_nil] at hi
+    show 0 < (v 0 + v 1 / 2) ^ 2 + 3/4 * (v 1) ^ 2
+    by_cases h1 : v 1 = 0
+    · have h0 : v 0 ≠ 0 := by
+        interval_cases i
+        · exact hne
+        · exact absurd h1 hne
+      have : 0 < (v 0) ^ 2 := by positivity
+      rw [h1]; norm_num; exact this
+    · have : 0 < (v 1) ^ 2 := by positivity
+      have := sq_nonneg (v 0 + v 1 / 2)
+      positivity
+
+/-- **the autocorrelation implied by the Burg model is positive definite**: over `ℝ`/`ℂ`, for `m ≥ 1`,
+non-zero mean power `ρ_0 = (burgRun x 0).rho` and returned reflection coefficients of modulus `< 1`, the
+`m × m` Hermitian Toeplitz matrix of `r_0 = ρ_0`, `r_j = rc2ac(ref, ρ_0)[j]` (`1 ≤ j < m`) is positive
+definite, and the Burg error power is non-zero. -/
+theorem minvar_implied_autocorrelation_pd (tw x : List 𝕜) (m : ℕ) (hm : 1 ≤ m) (fs : 𝕜) (nfft : ℕ)
+    (hρ0 : (burgRun x 0).rho ≠ 0)
+    (hk : ∀ i, i < m - 1 → ‖nth (minvar tw x m fs nfft).ref i‖ < 1)
+    (r : ℕ → 𝕜) (hr0 : r 0 = (burgRun x 0).rho)
+    (hr : ∀ j, 0 < j → j < m →
+      r j = nth (rc2ac (minvar tw x m fs nfft).ref (burgRun x 0).rho) j) :
+    (burgRun x (m - 1)).rho ≠ 0 ∧
+    ∀ v : ℕ → 𝕜, (∃ i, i < m ∧ v i ≠ 0) →
+      0 < RCLike.re (∑ i ∈ range m, ∑ j ∈ range m,
+        star (v i) * (if j ≤ i then r (i - j) else star (r (j - i))) * v j) := by
+  obtain ⟨p, rfl⟩ : ∃ p, m = p + 1 := ⟨m - 1, by omega⟩
+  refine ⟨burg_rho_ne_zero_of_refl_lt_one x p hρ0 hk, ?_⟩
+  intro v hv
+  obtain ⟨i, hi, hvi⟩ := hv
+  exact burg_implied_toepPD x p hρ0 hk r hr0 (fun j hj hjp => hr j hj (by omega)) v
+    ⟨i, by omega, hvi⟩
+
+/-- **C16 assembled** (no Gohberg–Semencul hypothesis, no positive-definiteness hypothesis): over `ℝ`/`ℂ`,
+for `m ≥ 1`, `NFFT ≥ 2m`, `fs > 0`, data with non-zero mean power `ρ_0 = (burgRun x 0).rho = mean |x|²` and
+Burg reflection coefficients of modulus `< 1`, let `R` be the `m × m` Hermitian Toeplitz matrix of the
+autocorrelation implied by the order `m-1` Burg model (`r_0 = ρ_0`, `r_j = rc2ac(ref, ρ_0)[j]`, `1 ≤ j < m`).
+Then for ANY right inverse `Rinv` of `R`, `minvar(X, m, fs, NFFT).psd[k] = fs / (e(f_k)ᴴ Rinv e(f_k))`
+(`e(f_k)_i = ω^{-ik}`), and this is a strictly positive real number. -/
+theorem minvar_psd_real_pos {ω : 𝕜} {nfft : ℕ} (hω : ω ^ nfft = 1) (hstar : star ω = ω⁻¹)
+    (x : List 𝕜) (m : ℕ) (hm : 1 ≤ m) (hno : 2 * m ≤ nfft) (fs : ℝ) (hfs : 0 < fs)
+    (hρ0 : (burgRun x 0).rho ≠ 0)
+    (hkr : ∀ i, i < m - 1 → ‖nth (minvar (twiddles ω nfft) x m (fs : 𝕜) nfft).ref i‖ < 1)
+    (r : ℕ → 𝕜) (hr0 : r 0 = (burgRun x 0).rho)
+    (hr : ∀ j, 0 < j → j < m →
+      r j = nth (rc2ac (minvar (twiddles ω nfft) x m (fs : 𝕜) nfft).ref (burgRun x 0).rho) j)
+    (Rinv : ℕ → ℕ → 𝕜)
+    (hRinv : ∀ i j, i < m → j < m →
+      ∑ l ∈ range m, (if l ≤ i then r (i - l) else star (r (l - i))) * Rinv l j
+        = if i = j then 1 else 0)
+    (k : ℕ) (hk : k < nfft) :
+    nth (minvar (twiddles ω nfft) x m (fs : 𝕜) nfft).psd k
+      = (fs : 𝕜) / ∑ i ∈ range m, ∑ j ∈ range m, star (ω⁻¹ ^ (i * k)) * Rinv i j * ω⁻¹ ^ (j * k) ∧
+    ∃ v : ℝ, 0 < v ∧ nth (minvar (twiddles ω nfft) x m (fs : 𝕜) nfft).psd k = (v : 𝕜) := by
+  obtain ⟨hP0, hpd⟩ :=
+    minvar_implied_autocorrelation_pd (twiddles ω nfft) x m hm (fs : 𝕜) nfft hρ0 hkr r hr0 hr
+  have hform := minvar_psd_eq_quadratic_form two_ne_zero hω hstar x m hm hno hP0 (fs : 𝕜) r hr0 hr
+    Rinv hRinv k hk
+  refine ⟨hform, ?_⟩
+  rw [hform]
+  have h0 : star (r 0) = r 0 := by rw [hr0]; exact burgRun_rho_star x 0
+  obtain ⟨q, hq, hQ⟩ := quadForm_inverse_pos m r h0 Rinv hRinv hpd (fun i => ω⁻¹ ^ (i * k))
+    ⟨0, by omega, by rw [Nat.zero_mul, pow_zero]; exact one_ne_zero⟩
+  rw [hQ]
+  exact ⟨fs / q, div_pos hfs hq, (RCLike.ofReal_div fs q).symm⟩
+
+/-- non-vacuity of `minvar_psd_real_pos` (Burg-level hypotheses): `𝕜 = ℝ`, `x = [1, 2, 1]`, `m = 2`,
+`NFFT = 4 ≥ 2m`: mean power `ρ_0 = 2 ≠ 0`, the returned reflection coefficient is `-4/5`, of modulus `< 1`
+(the implied lags `[2, 8/5]` and the inverse of `R` are exhibited over `ℚ` in section 7). -/
+example : (burgRun ([1, 2, 1] : List ℝ) 0).rho ≠ 0 ∧
+    ∀ i, i < 2 - 1 → ‖nth (minvar (twiddles (-1 : ℝ) 4) [1, 2, 1] 2 ((1 : ℝ) : ℝ) 4).ref i‖ < 1 := by
+  constructor
+  · have h : (burgRun ([1, 2, 1] : List ℝ) 0).rho = 2 := by
+      simp [burgRun, burgInit, nth, abs2, Finset.sum_range_succ]
+      norm_num
+    rw [h]; norm_num
+  · intro i hi
+    have : i = 0 := by omega
+    subst this
+    have h : nth (burgRun ([1, 2, 1] : List ℝ) 1).ref 0 = -4 / 5 := by
+      simp [burgRun, burgInit, burgK, burgStep, nth, abs2, Finset.sum_range_succ]
+      norm_num
+    show ‖nth (burgRun ([1, 2, 1] : List ℝ) (2 - 1)).ref 0‖ < 1
+    rw [h, Real.norm_eq_abs, abs_lt]
+    constructor <;> norm_num
+
+/-- the same with Burg's own guarantee `|k_i| ≤ 1` (`C13.burg_ref_le_one`: order `m-1 ≤ N`, non-degenerate
+stage denominators): it is enough that the Burg error power is non-zero. -/
+theorem minvar_psd_real_pos_of_rho_ne_zero {ω : 𝕜} {nfft : ℕ} (hω : ω ^ nfft = 1)
+    (hstar : star ω = ω⁻¹) (x : List 𝕜) (m : ℕ) (hm : 1 ≤ m) (hno : 2 * m ≤ nfft) (fs : ℝ)
+    (hfs : 0 < fs) (hmN : m - 1 ≤ x.length)
+    (hD : ∀ i, i < m - 1 → (burgK (burgRun x i) x.length i).2 ≠ 0)
+    (hP0 : (burgRun x (m - 1)).rho ≠ 0)
+    (r : ℕ → 𝕜) (hr0 : r 0 = (burgRun x 0).rho)
+    (hr : ∀ j, 0 < j → j < m →
+      r j = nth (rc2ac (minvar (twiddles ω nfft) x m (fs : 𝕜) nfft).ref (burgRun x 0).rho) j)
+    (Rinv : ℕ → ℕ → 𝕜)
+    (hRinv : ∀ i j, i < m → j < m →
+      ∑ l ∈ range m, (if l ≤ i then r (i - l) else star (r (l - i))) * Rinv l j
+        = if i = j then 1 else 0)
+    (k : ℕ) (hk : k < nfft) :
+    nth (minvar (twiddles ω nfft) x m (fs : 𝕜) nfft).psd k
+      = (fs : 𝕜) / ∑ i ∈ range m, ∑ j ∈ range m, star (ω⁻¹ ^ (i * k)) * Rinv i j * ω⁻¹ ^ (j * k) ∧
+    ∃ v : ℝ, 0 < v ∧ nth (minvar (twiddles ω nfft) x m (fs : 𝕜) nfft).psd k = (v : 𝕜) := by
+  obtain ⟨hρ0, hne⟩ := burg_domain_of_rho_ne_zero x (m - 1) hP0
+  refine minvar_psd_real_pos hω hstar x m hm hno fs hfs hρ0 ?_ r hr0 hr Rinv hRinv k hk
+  intro i hi
+  have hle := C13.burg_ref_le_one x (m - 1) hmN hD i hi
+  show ‖nth (burgRun x (m - 1)).ref i‖ < 1
+  rcases hle.lt_or_eq with h | h
+  · exact h
+  · exfalso
+    have hlen : (burgRun x (m - 1)).ref.length = m - 1 := burgRun_ref_length x (m - 1)
+    have hmem : nth (burgRun x (m - 1)).ref i ∈ (burgRun x (m - 1)).ref := by
+      rw [nth_of_lt _ i (by omega)]
+      exact List.getElem_mem _
+    apply hne _ hmem
+    rw [one_sub_mul_star_eq, h]
+    norm_num
+
+end RC2
 
 end SpecVerif.C16
